@@ -239,6 +239,27 @@ contains
     call ier_out(ier); call pf('ver', o); call nl()
   end subroutine
 
+  subroutine op_io_file_version()  ! three CHARACTER outputs; the two dates vary with the clock: guard bytes only
+    type(fout) :: o, o2, o3
+    integer :: ier
+    call fo(o, int(ti())); call fo(o2, int(ti())); call fo(o3, int(ti()))
+    call cgio_file_version_f(cgio_n, o%a(GUARD + 1:GUARD + o%n), o2%a(GUARD + 1:GUARD + o2%n), o3%a(GUARD + 1:GUARD + o3%n), ier)
+    call ier_out(ier); call pf('ver', o); call pfo('cdate', o2); call pfo('mdate', o3); call nl()
+  end subroutine
+
+  subroutine pfo(tag, o)           ! like pf, without the content
+    character(len=*), intent(in) :: tag
+    type(fout), intent(in) :: o
+    integer :: a, b
+    a = opos + len(tag) + 2
+    call pf(tag, o)
+    b = index(outl(a + 1:opos), '/oob:')
+    if (b > 0) then
+      outl(a + 1:a + (opos - (a + b - 1))) = outl(a + b:opos)
+      opos = a + (opos - (a + b - 1))
+    end if
+  end subroutine
+
   subroutine op_io_check_file()
     integer :: pad, ft, ier, L
     pad = int(ti()); ft = -1
